@@ -8,14 +8,14 @@ for f in sorted(glob.glob('/verif/seeded/%s-*/meta.json' % pid)):
     m = json.load(open(f))
     prior.append("- %s (files: %s)" % (m.get("summary", "")[:300], ", ".join(m.get("files", []))))
 PRIOR = ("\n\nChanges of this kind were ALREADY produced in an earlier round - do not repeat them or close variants; pick other "
-         "mechanisms, other functions, other input shapes:\n" + "\n".join(prior) + "\n") if prior and ("--round2" in sys.argv or "--round3" in sys.argv or "--round4" in sys.argv or "--round5" in sys.argv) else ""
-OUT = "out5" if "--round5" in sys.argv else "out4" if "--round4" in sys.argv else ("out3" if "--round3" in sys.argv else ("out2" if "--round2" in sys.argv else "out"))
+         "mechanisms, other functions, other input shapes:\n" + "\n".join(prior) + "\n") if prior and ("--round2" in sys.argv or "--round3" in sys.argv or "--round4" in sys.argv or "--round5" in sys.argv or "--round6" in sys.argv) else ""
+OUT = "out6" if "--round6" in sys.argv else "out5" if "--round5" in sys.argv else "out4" if "--round4" in sys.argv else ("out3" if "--round3" in sys.argv else ("out2" if "--round2" in sys.argv else "out"))
 EXTRA = (" At least ONE of your two changes must be of a kind the earlier ones rarely were: two cooperating edits in different "
          "functions or files that each look fine alone; a fault at a particular point (an exception newly swallowed, or newly "
          "raised, at one step of a multi-step computation); state that leaks between two uses of one object or between two "
          "objects (a cache, a shared default, an argument that is mutated); or a code path only reached through an unusual but "
          "public entry point (CubeSet, 3-D cubes, numeric arrays, strands, the legacy accessors).") if "--round4" in sys.argv else ""
-if "--round5" in sys.argv:
+if "--round5" in sys.argv or "--round6" in sys.argv:
     EXTRA = (" Make the changes look like what really gets merged: a vectorisation or caching 'optimisation', an early exit, "
              "a defensive guard or fallback added for robustness, a de-duplication refactor that folds two almost-equal code "
              "paths into one helper, a numpy-idiom swap (np.where / np.take / broadcasting instead of a loop, in-place ops), a "
@@ -24,6 +24,9 @@ if "--round5" in sys.argv:
              "dimension-type pairings, empty / single-element / all-missing dimensions, weighted vs unweighted, 3-D vs 2-D vs "
              "1-D, subtotals at unusual anchors, objects that are read twice or shared. Avoid the functions the earlier changes "
              "touched wherever the property's anchors leave you a choice.")
+if "--round6" in sys.argv:
+    EXTRA += (" You have about 25 minutes in all: keep each change small, and stop exploring once both demos behave as "
+              "required.")
 prop = [json.loads(l) for l in open('/verif/properties.jsonl') if l.strip() and json.loads(l)['id'] == pid][0]
 D = "/tmp/seed_%s" % pid
 print(f"""You are testing how well a semantic property of a Python library is protected. The library is Crunch-io/crunch-cube (a pure-Python library that turns Crunch.io cube JSON responses into crosstab measures). You have your own scratch git worktree of it at {D}/wt (source under {D}/wt/src/cr/cube, tests under {D}/wt/tests). Work ONLY inside {D} - never touch /repo or /verif, do not read anything under /verif.
